@@ -684,12 +684,12 @@ def _extract_nodedefs(
 
 def _insert_nodedefs(
   pure_carry_arg_out,
-  carry_nodedefs: deque[graph.NodeDef],
+  carry_nodedefs: deque[graph.NodeDef | graph.VariableDef],
   /,
 ):
   def insert_index_mappings(x):
     if isinstance(x, extract.NodeStates) and isinstance(
-      x._graphdef, graph.NodeDef
+      x._graphdef, graph.NodeDef | graph.VariableDef
     ):
       nodedef = carry_nodedefs.popleft()
       x = x.replace(_graphdef=nodedef)
